@@ -164,11 +164,13 @@ CLAIMED["C05"] = (
 )
 CLAIMED["C14"] = (
     "exploration",
-    "property-based testing (Hypothesis): invariants on what mutation receives (parallel_mcmc wrapped) over generated multimodal runs x cadence x caps x resume, and on Trainer/Resampler outputs over generated weighted pools with dying modes",
+    "property-based testing (Hypothesis): invariants on what mutation receives (parallel_mcmc wrapped) over generated multimodal runs x cadence x caps x resume, and on Trainer/Resampler outputs over generated weighted pools with dying and fading modes",
     "At every mutation of generated multimodal runs (cluster_every in {1,2,3,5}, caps, normalize, thresholds, resume from a mid-run checkpoint) "
     "and after every train+resample step on generated weighted pools (including pools where a fitted cluster loses all its trimmed training "
     "points between refits) every active label must index an existing mode, every referenced mode must be finite/SPD/dof>0 and its mean must lie in "
-    "the bounding box of the pool points the shared clusterer assigns to that label.",
+    "the bounding box of the pool points the shared clusterer assigns to that label, its standard deviation within their extent, and its location "
+    "along every coordinate within 3 standard deviations of the weighted mean of the trimmed training particles of that label (clusters with enough points only). Pools "
+    "include modes that fade to 0.2-0.8% of the weight (trimmed away yet still resampled into).",
     "Provenance is judged on the untrimmed pool (sound for any trimming) and only for labels that had a training point; K4 crashes are classified as the recorded finding.",
     "DESIGN.md §2 C14",
 )
